@@ -40,7 +40,7 @@ fn main() {
     "profile:true is set on every run (reference and strategies alike) to read the pruning counters; that profile does not change results is C20's property".into(),
     "cursor completeness at exact score ties is C11's property: page-2 comparison ignores documents tied with the page boundary".into(),
   ];
-  let n = ctx.n(60, 1500);
+  let n = ctx.n(60, 1000);
   let quick = ctx.quick();
   ctx.run_cases("idx", n, |rng: &mut Rng, l: &mut Local, scratch| {
     let mut vocab: Vec<String> = gen::WORDS.iter().map(|s| s.to_string()).collect();
@@ -180,8 +180,10 @@ fn main() {
             // qualifying documents are missing and the same request under `wand` is admissible:
             // specific to the block-max bounds
             "bmw-block-local-bounds-skip-or-end-the-scan:omits-qualifying-documents".to_string()
-          } else if custom && d.only_omits_better {
-            "pruning-ignores-score-adjustment:omits-better-documents".to_string()
+          } else if custom && d.only_omits {
+            // every returned hit is a correctly scored member of the exhaustive list, in order; documents
+            // with a higher (or, at the cut, tied but earlier) adjusted score were never evaluated
+            "pruning-ignores-score-adjustment:omits-qualifying-documents".to_string()
           } else {
             format!("{}:{exec_class}:{}:{}", if custom { "score-adjusting-tree" } else { "plain-bm25-tree" }, what, d.kind)
           };
@@ -226,8 +228,18 @@ fn main() {
                 l.eval();
                 l.count("page2_checks", 1);
                 if let Err(d) = page2_check(&got.hits, &p2.hits) {
+                  // attribute with WAND's own two pages (a cursor of one strategy may be stale for another
+                  // when scores differ in the last bits)
                   let wand_ok = if exec_class == "bmw" && d.only_omits {
-                    run(&built.reader, &as_wand(&req2)).ok().map(|w| page2_check(&got.hits, &w.hits).is_ok())
+                    run(&built.reader, &as_wand(&req)).ok().and_then(|w1| {
+                      if scoring::check_topk(&full.hits, &w1.hits, k, REL, &built.loc, strict).is_err() {
+                        return Some(false);
+                      }
+                      let cur = w1.next_cursor.clone()?;
+                      let mut wr2 = as_wand(&req);
+                      wr2["cursor"] = json!(cur);
+                      run(&built.reader, &wr2).ok().map(|w2| page2_check(&w1.hits, &w2.hits).is_ok())
+                    })
                   } else {
                     None
                   };
